@@ -488,6 +488,10 @@ class Process(metaclass=abc.ABCMeta):
         def get_defaults(d: dict) -> Optional[State]:
             defaults = {}
             for k, v in d.items():
+                if k == '*':
+                    # the sub-schema of a glob port describes children
+                    # that do not exist yet: it is not a child itself
+                    continue
                 if isinstance(v, dict):
                     def_val = v.get('_default', get_defaults(v))
                     if def_val is not None:
